@@ -29,7 +29,7 @@ type vfBlock struct {
 
 // vfLayout declares the block and derives its layout from symbolic header fields.
 func vfLayout(nt int) *vfBlock {
-	buf := zzverif.Region("mb", vfBase, vfCap, 1)
+	buf := zzverif.Region("mb", vfBase, vfCap, 3)
 	b := &vfBlock{base: uintptr(unsafe.Pointer(&buf[0])), nt: nt}
 	off := uintptr(8)
 	for i := 0; i < nt; i++ {
@@ -189,12 +189,12 @@ type vfSec struct {
 }
 
 // ELF sections: tag 9 with ns 64-byte section headers, the string table is a second region.
-//verif:bounds ns section headers (quick 2, thorough 3); names NUL-terminated within 3 bytes inside a 16-byte string table; flags/address/size/name offset symbolic; string-table section index symbolic
+//verif:bounds 0..ns section headers (quick 2, thorough 3); names NUL-terminated within 3 bytes inside a 16-byte string table; flags/address/size/name offset symbolic; string-table section index symbolic
 func Verif_C10_elf() {
-	ns := zzverif.Param("sections", 2, 3)
+	ns := zzverif.Choice("sections", zzverif.Param("maxsections", 2, 3)+1) // 0 .. max section headers
 	tagSize := uintptr(20 + 64*ns)
 	total := 8 + ((tagSize + 7) &^ 7) + 8
-	buf := zzverif.Region("mb", vfBase, total, 1)
+	buf := zzverif.Region("mb", vfBase, total, 3)
 	base := uintptr(unsafe.Pointer(&buf[0]))
 	str := zzverif.Region("strtab", vfStrBase, vfStrCap, 1)
 	strBase := uintptr(unsafe.Pointer(&str[0]))
@@ -203,7 +203,7 @@ func Verif_C10_elf() {
 	zzverif.Assume(int(vfLE32(base, 16)) == ns) // num
 	zzverif.Assume(vfLE32(base, 20) == 64)     // entsize
 	shndx := vfLE32(base, 24)
-	zzverif.Assume(int(shndx) < ns)
+	zzverif.Assume(zzverif.Or(int(shndx) < ns, zzverif.And(ns == 0, shndx == 0)))
 	endOff := 8 + ((tagSize + 7) &^ 7)
 	zzverif.Assume(zzverif.And(vfLE32(base, endOff) == 0, vfLE32(base, endOff+4) == 8))
 	hdr := func(i int) uintptr { return 28 + uintptr(64*i) }
@@ -278,7 +278,7 @@ func Verif_C10_cmdline() {
 	n := zzverif.Choice("len", zzverif.Param("cmdlen", 3, 5)+1)
 	tagSize := uintptr(8 + n + 1)
 	endOff := 8 + ((tagSize + 7) &^ 7)
-	buf := zzverif.Region("mb", vfBase, endOff+8, 1)
+	buf := zzverif.Region("mb", vfBase, endOff+8, 3)
 	base := uintptr(unsafe.Pointer(&buf[0]))
 	zzverif.Assume(vfLE32(base, 8) == 1)
 	zzverif.Assume(uintptr(vfLE32(base, 12)) == tagSize)
